@@ -53,23 +53,21 @@ Proof.
     destruct (negb (a mod b =? 0)); simpl; discriminate.
 Qed.
 
-Definition arith_error (x : pyexn) : Prop := x = CDefError \/ x = FFIError \/ x = ValueError.
-
-Lemma binop_errors : forall op a b x, binop op a b = Some (Err x) ->
-  x = CDefError \/ (x = ValueError /\ b < 0 /\ (op = "<<" \/ op = ">>")%string).
+Lemma binop_errors : forall op a b x, binop op a b = Some (Err x) -> x = CDefError.
 Proof.
   intros op a b x. unfold binop.
-  repeat match goal with
-  | |- (if String.eqb op ?s then _ else _) = _ -> _ =>
-      destruct (String.eqb_spec op s) as [->|_]
-  end; unfold bind2, bind; try discriminate.
-  - intros E. injection E as E. left. eapply c_div_errors; eauto.
-  - destruct (c_div a b) as [q|y] eqn:D; simpl; [discriminate|].
-    intros E. injection E as E. subst y. left. eapply c_div_errors; eauto.
-  - unfold py_lshift. destruct (Z.ltb_spec b 0); [|discriminate]. intros E. injection E as E. subst. auto.
-  - unfold py_rshift. destruct (Z.ltb_spec b 0).
-    + intros E. injection E as E. subst. auto.
-    + destruct (Z.log2 (Z.abs a) <? b); discriminate.
+  destruct ((String.eqb op "<<" || String.eqb op ">>") && negb ((0 <=? b) && (b <=? 1024))) eqn:G.
+  - intros E. now injection E as <-.
+  - repeat match goal with
+    | |- (if String.eqb op ?s then _ else _) = _ -> _ =>
+        destruct (String.eqb_spec op s) as [->|_]
+    end; unfold bind2, bind; try discriminate.
+    + intros E. injection E as E. eapply c_div_errors; eauto.
+    + destruct (c_div a b) as [q|y] eqn:D; simpl; [discriminate|].
+      intros E. injection E as E. subst y. eapply c_div_errors; eauto.
+    + simpl in G. unfold py_lshift. destruct (Z.ltb_spec b 0); [lia|discriminate].
+    + simpl in G. unfold py_rshift. destruct (Z.ltb_spec b 0); [lia|].
+      destruct (Z.log2 (Z.abs a) <? b); discriminate.
 Qed.
 
 Lemma unop_errors : forall op f v x, unop op = Some f -> f v = Err x -> False.
@@ -80,16 +78,16 @@ Proof.
   discriminate.
 Qed.
 
-Lemma num_value_errors : forall s x, num_value s = Err x -> x = CDefError \/ x = ValueError.
+Lemma num_value_errors : forall s x, num_value s = Err x -> x = CDefError.
 Proof.
   intros s x. unfold num_value.
   destruct (if starts0 s then py_int 8 s else py_int 10 s); [discriminate|].
-  destruct (1 <? Z.of_nat (length s)); [|intros H; inversion H; auto].
+  destruct (1 <? Z.of_nat (length s)); [|intros H; now inversion H].
   destruct (prefix2_is s 120).
-  - destruct (py_int 16 s); [discriminate|]. intros H; inversion H; auto.
+  - destruct (py_int 16 s); [discriminate|]. intros H; now inversion H.
   - destruct (prefix2_is s 98).
-    + destruct (py_int 2 s); [discriminate|]. intros H; inversion H; auto.
-    + intros H; inversion H; auto.
+    + destruct (py_int 2 s); [discriminate|]. intros H; now inversion H.
+    + intros H; now inversion H.
 Qed.
 
 Lemma char_value_errors : forall s x, char_value s = Err x -> x = CDefError.
@@ -101,56 +99,32 @@ Proof.
     destruct (assoc c simple_escapes); [discriminate|]. intros H; inversion H; reflexivity.
 Qed.
 
-Lemma lit_value_errors : forall s x, s <> [] -> lit_value s = Err x -> x = CDefError \/ x = ValueError.
+Lemma lit_value_errors : forall s x, s <> [] -> lit_value s = Err x -> x = CDefError.
 Proof.
   intros s x Hne. unfold lit_value. destruct s as [|c0 r]; [congruence|].
   destruct (n_in 48 57 c0).
   - apply num_value_errors.
   - destruct (N.eqb c0 39 && last_is (c0 :: r) 39).
-    + intros H. left. eapply char_value_errors; eauto.
-    + intros H; inversion H; auto.
+    + apply char_value_errors.
+    + intros H; now inversion H.
 Qed.
 
-(* what can escape from _parse_constant, for every expression tree and every table of known constants *)
-Theorem evaluator_errors : forall env e x, wf e -> py_eval env e = Err x -> arith_error x.
+(* what can escape from _parse_constant, for every expression tree and every table of known constants:
+   only cffi's own errors *)
+Theorem evaluator_closed : forall env e x, wf e -> py_eval env e = Err x -> cffi_error x.
 Proof.
-  intros env e x. apply (py_eval_errors arith_error); unfold arith_error.
+  intros env e x. apply (py_eval_errors cffi_error); unfold cffi_error.
   - auto.
   - intros op f v y U F. exfalso. eapply unop_errors; eauto.
-  - intros op a b y B. apply binop_errors in B. destruct B as [->|(-> & _)]; auto.
-  - intros s y Hne L. apply lit_value_errors in L; auto. destruct L as [->| ->]; auto.
+  - intros op a b y B. apply binop_errors in B. auto.
+  - intros s y Hne L. apply lit_value_errors in L; auto.
 Qed.
 
-(* the two sources of ValueError *)
-Fixpoint no_value_error_source (env : list (text * Z)) (e : expr) : Prop :=
-  match e with
-  | Const s => lit_value s <> Err ValueError
-  | Unary _ e1 => no_value_error_source env e1
-  | Binary op l r =>
-      no_value_error_source env l /\ no_value_error_source env r /\
-      ((op = "<<" \/ op = ">>")%string -> forall b, py_eval env r = Ok b -> 0 <= b)
-  | Id _ | Other => True
-  end.
-
-Theorem evaluator_closed_partial : forall env e x, wf e -> no_value_error_source env e ->
-  py_eval env e = Err x -> cffi_error x.
+(* the shift-count guard (cparser.py, BinaryOp block): counts outside 0..1024 are refused, so Python never
+   sees a negative count nor builds an astronomically large integer *)
+Lemma shift_guard : forall a b, ~ (0 <= b <= 1024) ->
+  binop "<<" a b = Some (Err CDefError) /\ binop ">>" a b = Some (Err CDefError).
 Proof.
-  unfold cffi_error.
-  induction e as [s|n|op e1 IH|op l IHl r IHr|]; intros x W S H; simpl in H.
-  - simpl in S. pose proof H as H'. apply lit_value_errors in H'; auto. destruct H' as [->| ->]; [auto|].
-    exfalso. apply S. exact H.
-  - destruct (lookup n env); [discriminate|]. inversion H; auto.
-  - destruct (unop op) as [f|] eqn:U.
-    + destruct (py_eval env e1) as [v|y] eqn:E; simpl in H.
-      * exfalso. eapply unop_errors; eauto.
-      * inversion H; subst. apply IH; auto.
-    + inversion H; auto.
-  - destruct W as [Wl Wr]. destruct S as (Sl & Sr & Sh).
-    destruct (py_eval env l) as [a|y] eqn:El; simpl in H; [|inversion H; subst; apply IHl; auto].
-    destruct (py_eval env r) as [b|y] eqn:Er; simpl in H; [|inversion H; subst; apply IHr; auto].
-    destruct (binop op a b) as [z|] eqn:B.
-    + subst z. apply binop_errors in B. destruct B as [->|(_ & Hb & Hop)]; auto.
-      specialize (Sh Hop b eq_refl). lia.
-    + inversion H; auto.
-  - inversion H; auto.
+  intros a b H. unfold binop. simpl.
+  assert (G : negb ((0 <=? b) && (b <=? 1024)) = true) by lia. rewrite G. auto.
 Qed.
